@@ -827,16 +827,36 @@ def auto_family(prop, tier, seed, mc_cfgs, gen_runs, directed, extra_rule):
                             "small scope: <= 2 directories, one Spec name and one temporary name per directory, two contents"]}
 
 
+def with_overflow(out, prop):
+    """the kernel queue overflow, made real: a burst of ignored events while the watcher goroutine is held"""
+    res, err = run_harness("overflow", [], timeout=600)
+    tool_errors(res["mismatches"])
+    for m in tagged(res["mismatches"], prop):
+        m["replay_sub"] = "overflow"
+        out["mismatches"].append(m)
+    out["coverage"]["evaluations"] += res["evaluations"]
+    out["coverage"]["distinct_nontrivial"] += res["distinct_nontrivial"]
+    out["coverage"]["queue_overflow_scenario"] = {"evaluations": res["evaluations"], "extra": res.get("extra")}
+    out["coverage"]["rule"] += (" Queue overflow: CacheAuto_overflow.cfg (a kernel queue of 2 events) exhaustively; on the code, the counter-example's shape with "
+                                "the real queue (fs.inotify.max_queued_events): one event held at the gate, a burst of ignored events, the goroutine "
+                                "parked after its rescan, the Spec file replaced (event dropped), then only ignored events and the overflow notice.")
+    return out
+
+
 @check("C11")
 def c11(prop, tier, seed):
+    return with_overflow(c11_auto(prop, tier, seed), prop)
+
+
+def c11_auto(prop, tier, seed):
     if tier == "quick":
-        return auto_family(prop, tier, seed, ["CacheAuto_quick.cfg", "CacheAuto_away.cfg"], [("CacheAuto_gen1.cfg", 40, 40), ("CacheAuto_gen3.cfg", 15, 40)],
+        return auto_family(prop, tier, seed, ["CacheAuto_quick.cfg", "CacheAuto_away.cfg", "CacheAuto_overflow.cfg"], [("CacheAuto_gen1.cfg", 40, 40), ("CacheAuto_gen3.cfg", 15, 40)],
                            [("CacheAuto_quick.cfg", [("FIX_CREATE", []), ("FIX_READD", [("MaxFsOps = 4", "MaxFsOps = 5"), ("FIX_SCANWATCHED = TRUE", "FIX_SCANWATCHED = FALSE")]), ("FIX_SCANWATCHED", [("MaxFsOps = 4", "MaxFsOps = 5")])]),
-                            ("CacheAuto_away.cfg", [("FIX_RENAMEDIR", []), ("FIX_SCANWATCHED", [])])], "The rename-away history class (outside the statement's list) is included.")
-    return auto_family(prop, tier, seed, ["CacheAuto_thorough.cfg", "CacheAuto_2dir.cfg", "CacheAuto_away.cfg"],
+                            ("CacheAuto_away.cfg", [("FIX_RENAMEDIR", []), ("FIX_SCANWATCHED", [])]), ("CacheAuto_overflow.cfg", [("FIX_OVERFLOW", [])])], "The rename-away history class (outside the statement's list) is included.")
+    return auto_family(prop, tier, seed, ["CacheAuto_thorough.cfg", "CacheAuto_2dir.cfg", "CacheAuto_away.cfg", "CacheAuto_overflow.cfg"],
                        [("CacheAuto_gen1.cfg", 400, 40), ("CacheAuto_gen2.cfg", 300, 60), ("CacheAuto_gen3.cfg", 200, 40)],
                        [("CacheAuto_quick.cfg", [("FIX_CREATE", []), ("FIX_READD", [("MaxFsOps = 4", "MaxFsOps = 5"), ("FIX_SCANWATCHED = TRUE", "FIX_SCANWATCHED = FALSE")]), ("FIX_SCANWATCHED", [("MaxFsOps = 4", "MaxFsOps = 5")])]),
-                        ("CacheAuto_away.cfg", [("FIX_RENAMEDIR", []), ("FIX_SCANWATCHED", [])])], "The rename-away history class (outside the statement's list) is included.")
+                        ("CacheAuto_away.cfg", [("FIX_RENAMEDIR", []), ("FIX_SCANWATCHED", [])]), ("CacheAuto_overflow.cfg", [("FIX_OVERFLOW", [])])], "The rename-away history class (outside the statement's list) is included.")
 
 
 @check("C20")
